@@ -117,7 +117,7 @@ struct World {
 fn build_world(spec: &SchedSpec) -> Result<World, String> {
     let bits = BITS[spec.bits_idx as usize % BITS.len()];
     let cap = 1usize << (spec.cap_log.max(1));
-    let shared = RangeParameters::init(bits, cap, ristretto::create_pedersen_gens_with_extension_degree(ext_of(spec.ext))).map_err(|e| format!("{:?}", e))?;
+    let shared = RangeParameters::init(bits, cap, ristretto::create_pedersen_gens_with_extension_degree(ext_of(spec.ext))).map_err(crate::runner::skip_err)?;
     let mut cases = vec![];
     for pc in &spec.pool {
         let m = (1usize << pc.m_log).min(cap);
@@ -128,7 +128,7 @@ fn build_world(spec: &SchedSpec) -> Result<World, String> {
         for j in 0..m {
             let v = mix(pc.bulk, j as u64) & mask_of(bits);
             let r: Vec<Scalar> = (0..spec.ext).map(|_| rand_scalar(&mut rng)).collect();
-            cs.push(shared.pc_gens().commit(&Scalar::from(v), &r).map_err(|e| format!("{:?}", e))?);
+            cs.push(shared.pc_gens().commit(&Scalar::from(v), &r).map_err(crate::runner::skip_err)?);
             os.push(CommitmentOpening::new(v, r));
             proms.push(if j % 2 == 0 { None } else { Some(v / 2) });
         }
@@ -145,13 +145,15 @@ fn build_world(spec: &SchedSpec) -> Result<World, String> {
                 pc.g_base_vec[0] = pc.g_base_vec[0] + pc.h_base;
                 pc.g_base_compressed_vec[0] = pc.g_base_vec[0].compress();
             }
-            let other = RangeParameters::init(if kind == 2 { if bits < 64 { bits * 2 } else { 32 } } else { bits }, cap, pc).map_err(|e| format!("{:?}", e))?;
-            foreign.push(RangeStatement::init(other, cs.clone(), proms.clone(), seed).map_err(|e| format!("{:?}", e))?);
+            let other = RangeParameters::init(if kind == 2 { if bits < 64 { bits * 2 } else { 32 } } else { bits }, cap, pc).map_err(crate::runner::skip_err)?;
+            foreign.push(RangeStatement::init(other, cs.clone(), proms.clone(), seed).map_err(crate::runner::skip_err)?);
         }
-        let st = RangeStatement::init(shared.clone(), cs, proms, seed).map_err(|e| format!("{:?}", e))?;
-        let w = RangeWitness::init(os).map_err(|e| format!("{:?}", e))?;
-        let proof = guarded(|| RangeProof::prove_with_rng(&mut Transcript::new(b"c18"), &st, &w, &mut RngSpec::ChaCha(pc.bulk).make()))?
-            .map_err(|e| format!("prover refused a valid witness (m = {} on shared parameters of capacity {}): {:?}", m, cap, e))?;
+        let st = RangeStatement::init(shared.clone(), cs, proms, seed).map_err(crate::runner::skip_err)?;
+        let w = RangeWitness::init(os).map_err(crate::runner::skip_err)?;
+        let proof = crate::runner::setup(
+            guarded(|| RangeProof::prove_with_rng(&mut Transcript::new(b"c18"), &st, &w, &mut RngSpec::ChaCha(pc.bulk).make())),
+            "the prover refused or panicked on a valid witness (C01's subject)",
+        )?;
         cases.push(Built { foreign, st, w, proof });
     }
     Ok(World { bits, ext: spec.ext, cases })
@@ -187,7 +189,7 @@ fn exec(world: &World, op: &Op) -> Result<u64, String> {
             let bits = BITS[*b as usize % 7];
             let cap = 1usize << (c % 6);
             let p = guarded(|| RangeParameters::init(bits, cap, ristretto::create_pedersen_gens_with_extension_degree(ext_of(world.ext))))?
-                .map_err(|e| format!("{:?}", e))?;
+                .map_err(crate::runner::skip_err)?;
             let bytes: Vec<[u8; 32]> = p.gi_base_iter().chain(p.hi_base_iter()).map(|x| x.compress().to_bytes()).collect();
             hash_of(&bytes)
         },
@@ -215,7 +217,7 @@ fn exec(world: &World, op: &Op) -> Result<u64, String> {
             let pb = match bad {
                 2 => cb.proof.clone(),
                 k => {
-                    let mut pf = Proof::parse_layout(&cb.proof.to_bytes()).map_err(|e| format!("{:?}", e))?;
+                    let mut pf = Proof::parse_layout(&cb.proof.to_bytes()).map_err(crate::runner::skip_err)?;
                     if *k == 0 {
                         pf.s1 = (Scalar::from_bytes_mod_order(pf.s1) + Scalar::ONE).to_bytes();
                     } else {
@@ -260,7 +262,7 @@ fn exec(world: &World, op: &Op) -> Result<u64, String> {
         },
         Op::VerifyPrefixTwin { case, which, keep } => {
             let c = &world.cases[pick(*case, n)];
-            let mut pf = Proof::parse_layout(&c.proof.to_bytes()).map_err(|e| format!("{:?}", e))?;
+            let mut pf = Proof::parse_layout(&c.proof.to_bytes()).map_err(crate::runner::skip_err)?;
             let slot: &mut [u8; 32] = match which % 3 {
                 0 => &mut pf.a,
                 1 => &mut pf.a1,
@@ -296,7 +298,7 @@ fn exec(world: &World, op: &Op) -> Result<u64, String> {
             let c = &world.cases[pick(*case, n)];
             let bytes = c.proof.to_bytes();
             let back = guarded(|| RangeProof::<RistrettoPoint>::from_bytes(&bytes))?;
-            hash_of(&(bytes.clone(), back.map(|p| p.to_bytes()).map_err(|e| format!("{:?}", e))))
+            hash_of(&(bytes.clone(), back.map(|p| p.to_bytes()).map_err(crate::runner::skip_err)))
         },
     })
 }
@@ -422,7 +424,17 @@ fn hexs(b: &[u8]) -> String {
     b.iter().map(|x| format!("{:02x}", x)).collect()
 }
 
+/// a set-up step of the cold thread failed (the prover refused, a constructor refused: other properties' subjects)
+const SETUP_FAILED: &str = "SETUP-FAILED";
+
 fn cold_thread(spec: &ColdSpec, t: usize) -> (Vec<String>, u64, u64, bool) {
+    match cold_thread_inner(spec, t) {
+        Ok(x) => x,
+        Err(e) => (vec![format!("{} {}", SETUP_FAILED, e)], 0, 0, false),
+    }
+}
+
+fn cold_thread_inner(spec: &ColdSpec, t: usize) -> Result<(Vec<String>, u64, u64, bool), String> {
     let spins = mix(spec.delays, t as u64) % 5000;
     for _ in 0..spins {
         std::hint::spin_loop();
@@ -435,16 +447,16 @@ fn cold_thread(spec: &ColdSpec, t: usize) -> (Vec<String>, u64, u64, bool) {
     gens.extend(g.g_base_vec.iter().map(|p| hexs(p.compress().as_bytes())));
     let bits = BITS[spec.bits_idx as usize % 4];
     let cap = 1usize << (spec.cap_log % 3);
-    let params = RangeParameters::init(bits, cap, g).unwrap();
+    let params = RangeParameters::init(bits, cap, g).map_err(|e| format!("{:?}", e))?;
     let vg: Vec<[u8; 32]> = params.gi_base_iter().chain(params.hi_base_iter()).map(|x| x.compress().to_bytes()).collect();
     let r: Vec<Scalar> = (0..ext).map(|k| Scalar::from(k as u64 + 11)).collect();
     let v = 1u64 & mask_of(bits);
-    let c = params.pc_gens().commit(&Scalar::from(v), &r).unwrap();
-    let st = RangeStatement::init(params, vec![c], vec![None], None).unwrap();
-    let w = RangeWitness::init(vec![CommitmentOpening::new(v, r)]).unwrap();
-    let proof = RangeProof::prove_with_rng(&mut Transcript::new(b"cold"), &st, &w, &mut RngSpec::ChaCha(7).make()).unwrap();
+    let c = params.pc_gens().commit(&Scalar::from(v), &r).map_err(|e| format!("{:?}", e))?;
+    let st = RangeStatement::init(params, vec![c], vec![None], None).map_err(|e| format!("{:?}", e))?;
+    let w = RangeWitness::init(vec![CommitmentOpening::new(v, r)]).map_err(|e| format!("{:?}", e))?;
+    let proof = RangeProof::prove_with_rng(&mut Transcript::new(b"cold"), &st, &w, &mut RngSpec::ChaCha(7).make()).map_err(|e| format!("{:?}", e))?;
     let ok = RangeProof::verify_batch(&mut [Transcript::new(b"cold")], &[st], &[proof.clone()], VerifyAction::VerifyOnly).is_ok();
-    (gens, hash_of(&vg), hash_of(&proof.to_bytes()), ok)
+    Ok((gens, hash_of(&vg), hash_of(&proof.to_bytes()), ok))
 }
 
 /// Entry point of the child process (`bpcheck child-c18 <json>`): race from cold, print the results as JSON.
@@ -494,6 +506,12 @@ pub fn cold_oracle(_ctx: &RunCtx, spec: &ColdSpec, log: &mut CaseLog) -> Result<
     // expected: the same work done here, warm and single-threaded, and the reference derivation of the generators
     for (t, th) in got.threads.iter().enumerate() {
         let want = cold_thread(spec, t);
+        if want.0.first().map(|s| s.starts_with(SETUP_FAILED)).unwrap_or(false) {
+            return Err(format!("{} the warm single-threaded run cannot set the scenario up: {}", crate::runner::SKIP, want.0[0]));
+        }
+        if want.3 != th.3 && !want.3 {
+            return Err(format!("{} the proof of the warm single-threaded run does not verify (C01's subject)", crate::runner::SKIP));
+        }
         if *th != want {
             let what = if th.0 != want.0 {
                 "blinding / value generators"
